@@ -450,6 +450,9 @@ func (g *Gen) build(fn string, args [][]byte) (string, []string) {
 	if len(ops) > 0 && g.R.Intn(8) == 0 {
 		ops[len(ops)-1] = "setlast"
 	}
+	if len(ops) > 0 && g.R.Intn(10) == 0 {
+		ops[0] = "setfirst"
+	}
 	if g.R.Intn(10) == 0 {
 		ops = append(ops, "reuse")
 	}
@@ -470,6 +473,11 @@ func (g *Gen) tx(snd, rcv []byte, fn string, args [][]byte, gas uint64, ct int) 
 	if g.R.Intn(60) == 0 {
 		t.Value = []string{"5", "5", "-5", "18446744073709551616", "1"}[g.R.Intn(5)]
 	}
+	if spec.IsContract(snd) && g.R.Intn(15) == 0 {
+		// a VM reversing something inside the shard: a contract's own call carrying the
+		// return-after-error flag (what the flag waives is the freeze/pause gate, nothing else)
+		t.ReturnErr = true // (the call type stays what the world's sending discipline chose)
+	}
 	if spec.IsContract(snd) && g.R.Intn(3) == 0 {
 		t.GasLocked = uint64(g.R.Intn(5000))
 		if g.R.Intn(12) == 0 {
@@ -481,7 +489,7 @@ func (g *Gen) tx(snd, rcv []byte, fn string, args [][]byte, gas uint64, ct int) 
 
 func (g *Gen) nodeOf(a []byte) *world.Node {
 	s := world.ShardOf(a, g.W.Cfg.NumShards)
-	if int(s) >= len(g.W.Nodes) {
+	if s >= uint32(len(g.W.Nodes)) {
 		return g.W.Nodes[0]
 	}
 	return g.W.Nodes[s]
